@@ -183,7 +183,7 @@ int main(int argc, char **argv) {
     }
     mc_extra_add("\"classes_present_in_table\":%d,\"real_addresses\":%d", classes_in_table, NREAL);
     mc_parallel("all 2^11 masks x 4 modes x tld on/off x (real addresses + injected classes/codes)", 2048, mask_shard, NULL);
-    { static const int PH[] = { CP_LPXDOM, CP_DEPTH, CP_EMBED, CP_TLD, CP_LOCAL, CP_EMAIL, CP_DOMAIN, CP_LITERAL, CP_MAXLIT, CP_LABELLEN };
+    { static const int PH[] = { CP_LPXDOM, CP_DEPTH, CP_EMBED, CP_SHORTLAB, CP_TLD, CP_LOCAL, CP_EMAIL, CP_DOMAIN, CP_LITERAL, CP_MAXLIT, CP_LABELLEN };
       CORPUS_DEEP = mc_thorough; if (corpus_load()) return 2; veto_objects();
       for (unsigned i = 0; i < sizeof PH / sizeof PH[0]; i++) { CURPH8 = PH[i]; char nm[96]; snprintf(nm, sizeof nm, "veto: 14 masks x tld on/off x 4 modes over %.40s", corpus_name(CURPH8)); mc_parallel(nm, corpus_shards(CURPH8), veto_shard, NULL); } }
     mc_sh->ctr[C_NONTRIV] = mc_sh->ctr[C_REAL] + mc_sh->ctr[C_CB] + mc_sh->ctr[C_VETO];     /* (mask, mode, tld, case) tuples: distinct by construction */
